@@ -23,6 +23,7 @@ from ..tlc import read_export, run_tlc, validate_traces
 S = lambda src, **kw: dict(kind="string", src=src, **kw)  # noqa: E731
 F = lambda src, **kw: dict(kind="file", src=src, **kw)  # noqa: E731
 POOL = [
+    S("x = (1,\r 2)\n"), S("y = [3,\r 4]\n"), S("z = 5 \\\n"),
     S("x = 1\n"), S("p = pf'/t{q}'\n"), S("q = p'/srv' pf'/{u}'\n"), S("s = 'plain' \"text\"\n"), S("x = = 1\n"),
     S("f(a for a in b, c)\n"), S("f!(a, b c)\n"), S("f!(a\n"), S("with! ctx:\n    raw body\ny = 1\n"), S("with! ctx:\n"),
     S("$(echo! x y)\n"), S("$(reload!)\n"), S("![reset!]\nx = 1\n"), S("a.b.c(\n"), S("x = 'abc\ny = 2\n"),
